@@ -164,8 +164,7 @@ func (ex *Exec) bitop(op string, a, b *smt.Term, t types.Type) (*smt.Term, bool)
 	if bw, ok := ex.W.BridgeWidth(t); ok && (op == "&" || op == "|" || op == "^" || op == "&^") {
 		// `bvtype`: an unsigned type of exactly this width, so the bridge is exact for every value
 		bs := smt.BVSort(bw)
-		i2b := fmt.Sprintf("(_ int2bv %d)", bw)
-		x, y := c.App(i2b, bs, a), c.App(i2b, bs, b)
+		x, y := ex.bvOf(a, bw), ex.bvOf(b, bw)
 		var r *smt.Term
 		switch op {
 		case "&":
@@ -290,6 +289,37 @@ func (ex *Exec) bitop(op string, a, b *smt.Term, t types.Type) (*smt.Term, bool)
 		ex.assume(wf)
 	}
 	return r, false
+}
+
+// bvOf gives the bit-vector of an integer term that denotes a value of a `bvtype` type of width w. Results of bit
+// operations and literals convert structurally; any other term (a stored value, a parameter) gets a bit-vector
+// constant b with the defining assumption t == bv2nat(b), which holds because every value of the type is below 2^w.
+func (ex *Exec) bvOf(t *smt.Term, w int) *smt.Term {
+	c := ex.W.C
+	bs := smt.BVSort(w)
+	i2b := fmt.Sprintf("(_ int2bv %d)", w)
+	if t.Sort.IsBV() {
+		return t
+	}
+	if ex.bvLeaf == nil {
+		ex.bvLeaf = map[[2]int]*smt.Term{}
+	}
+	key := [2]int{w, t.ID}
+	if r, ok := ex.bvLeaf[key]; ok {
+		return r
+	}
+	var r *smt.Term
+	switch {
+	case t.Kind == smt.KLit || (t.Kind == smt.KApp && t.Op == "bv2nat") || c.HasVar(t):
+		r = c.App(i2b, bs, t)
+	case t.Kind == smt.KApp && t.Op == "ite" && len(t.Args) == 3:
+		r = c.Ite(t.Args[0], ex.bvOf(t.Args[1], w), ex.bvOf(t.Args[2], w))
+	default:
+		r = c.Fresh("bv", bs)
+		ex.assume(c.EqRaw(t, c.App("bv2nat", smt.Int, r)))
+	}
+	ex.bvLeaf[key] = r
+	return r
 }
 
 func (ex *Exec) bitsFor(t types.Type) (int, bool) {
